@@ -1029,3 +1029,26 @@ func MultipartMatrix() *m.Design {
 		Services: []*m.Service{{Name: "uploads", HasHTTP: true, Methods: []*m.Method{inline, user, mixed}}},
 		Features: []string{"fixed-design:multipart-matrix", "multipart-request"}}
 }
+
+// RespCookieMatrix is a fixed design whose responses set several cookies at
+// once (four in one response, three next to two headers in another, two in a
+// tagged response): anything that treats "the" cookie of a response as one
+// thing - in the encoders, the client or the documents - shows here.
+func RespCookieMatrix() *m.Design {
+	obj := func(fs ...*m.Field) *m.Attr { return &m.Attr{Type: &m.Type{Kind: m.Object, Fields: fs}} }
+	fld := func(n string, a *m.Attr, req bool) *m.Field { return &m.Field{Name: n, Attr: a, Required: req} }
+	str := func() *m.Attr { return m.Prim(m.String) }
+	four := &m.Method{Name: "four", Result: obj(fld("sid", str(), true), fld("lang", str(), false), fld("theme", str(), false), fld("visits", str(), false), fld("note", str(), false)),
+		HTTP: &m.HTTPEndpoint{Routes: []m.Route{{Verb: "GET", Path: "/cookies/four"}},
+			Responses: []*m.Response{{Status: 200, Cookies: []m.Mapping{{Attr: "sid", Wire: "SID"}, {Attr: "lang"}, {Attr: "theme", Wire: "ui-theme"}, {Attr: "visits", Wire: "n"}}}}}}
+	mixed := &m.Method{Name: "mixed", Result: obj(fld("a", str(), true), fld("b", str(), true), fld("c", str(), false), fld("etag", str(), false), fld("region", str(), false), fld("body", str(), false)),
+		HTTP: &m.HTTPEndpoint{Routes: []m.Route{{Verb: "GET", Path: "/cookies/mixed"}},
+			Responses: []*m.Response{{Status: 200, Cookies: []m.Mapping{{Attr: "a", Wire: "ca"}, {Attr: "b", Wire: "cb"}, {Attr: "c", Wire: "cc"}}, Headers: []m.Mapping{{Attr: "etag", Wire: "ETag"}, {Attr: "region", Wire: "X-Region"}}}}}}
+	tagged := &m.Method{Name: "tagged", Result: obj(fld("kind", str(), true), fld("x", str(), false), fld("y", str(), false), fld("z", str(), false)),
+		HTTP: &m.HTTPEndpoint{Routes: []m.Route{{Verb: "GET", Path: "/cookies/tagged"}},
+			Responses: []*m.Response{{Status: 202, TagName: "kind", TagValue: "queued", Cookies: []m.Mapping{{Attr: "x", Wire: "cx"}, {Attr: "y", Wire: "cy"}}},
+				{Status: 200, Cookies: []m.Mapping{{Attr: "z", Wire: "cz"}}}}}}
+	return &m.Design{API: m.API{Name: "respcookies", Title: "Response cookie matrix"},
+		Services: []*m.Service{{Name: "respcookies", HasHTTP: true, Methods: []*m.Method{four, mixed, tagged}}},
+		Features: []string{"fixed-design:response-cookie-matrix", "several-response-cookies"}}
+}
